@@ -279,7 +279,10 @@ def _qemu(ctx):
             '12345678901234567890B', '1.0G (1073741825 bytes)',
             '.5G', '.25 MiB', '.5', '0.5G', '00.5K', '1.K', 'x.5M', '1..5G',
             '.5G (12 bytes)', '5.e+1', '1E+3 K', '1e-1', ' 7M', '7 M ',
-            'size 3K', '3K\n', '3\tK', '1.5k', '1.5kB', '1,5G')
+            'size 3K', '3K\n', '3\tK', '1.5k', '1.5kB', '1,5G',
+            # units spelled with an 'e' / 'E', decimal magnitudes
+            '1.5E', '2.5EB', '0.5 EiB', '1.25E (7 bytes)', '1.5 e', '7.5Ei',
+            '1.5PE', '2.5e+1 E', '0.5 (1 bytes)', '1000 (1023 bytes)')
     grid_compare(rep, 'R10.6', 'QemuImgInfo._extract_bytes',
                  'human-readable size strings', outcomes, {details: grid},
                  oracle, hooks=[s2b_hook, rxmodel.hook], value_eq=close)
